@@ -116,3 +116,34 @@ Example C12_range_nonvacuous :
   | None => (true, [])
   end = (false, [(Shared, Unlocked); (Unlocked, Unlocked); (Unlocked, Shared); (Unlocked, Unlocked)]).
 Proof. vm_compute. reflexivity. Qed.
+
+(* a granted shared request leaves the requester with every lock of the range shared - also the ones it held exclusively
+   (they are downgraded) - and nothing else of its own changed *)
+Theorem C12_shared_range_request_granted : forall ls t g t',
+  TInv t -> NoDup ls -> try_rlocks t g ls = Some (true, t') ->
+  forall l, gst (t' l) g = if in_dec lk_eq_dec l ls then Shared else gst (t l) g.
+Proof. exact try_rlocks_granted. Qed.
+
+(* "a failed attempt changes nothing" under concurrency: the other owners keep going - any guard operations, before
+   every step of the request and of its rollback ([sched], all by owners other than the requester).  A refused shared
+   request over a range leaves the requester holding exactly what it held before, whatever the others did.
+   [try_rlocks_il true] is DB.TryRLocks after the repair: a lock the requester holds exclusively is downgraded only once
+   every other lock of the range has been granted, so that the rollback never has to upgrade. *)
+Theorem C12_shared_range_refused_keeps_own_locks_under_interference : forall ls t g sched t',
+  TInv t -> NoDup ls -> others_only g sched ->
+  try_rlocks_il true t g ls sched [] = Some (false, t') ->
+  TInv t' /\ forall l, gst (t' l) g = gst (t l) g.
+Proof. exact shared_range_refused_keeps_own_locks. Qed.
+(* ... which is FALSE of the order before the repair ([try_rlocks_il false]: every lock in turn, an exclusive one
+   downgraded on the way and upgraded back by the rollback).  Owner 0 holds READ1 exclusively, owner 1 READ2; owner 0
+   asks for READ1..READ2 shared; owner 2 takes READ1 shared between the two steps: the request is refused and owner 0 is
+   left with READ1 shared.  With the repaired order the same schedule leaves it exclusive. *)
+Example C12_downgrade_first_refuted :
+  match run_prims tinit [PX 0 LRead1; PX 1 LRead2] with
+  | Some t =>
+    let sched := [[]; [PR 2 LRead1]] in
+    (match try_rlocks_il false t 0 [LRead1; LRead2] sched [] with Some (b, t') => Some (b, gst (t LRead1) 0, gst (t' LRead1) 0) | None => None end,
+     match try_rlocks_il true t 0 [LRead1; LRead2] sched [] with Some (b, t') => Some (b, gst (t LRead1) 0, gst (t' LRead1) 0) | None => None end)
+  | None => (None, None)
+  end = (Some (false, Exclusive, Shared), Some (false, Exclusive, Exclusive)).
+Proof. vm_compute. reflexivity. Qed.
